@@ -205,6 +205,16 @@ def c09_case(acc, sp, kw, rng, tier, twin=False):
                 not np.array_equal(o_back.numpy_flat(), o1):
             acc.violation("obs_from_numpy_roundtrip",
                           "obs_from_numpy_roundtrip", {}, W(what))
+        # the same content in another memory layout (column-major 2D array,
+        # non-contiguous view): still the same observation
+        for label, arr in (("fortran", np.asfortranarray(o2)),
+                           ("strided", np.repeat(o2, 2, axis=1)[:, ::2])):
+            ob = Observation.from_numpy(arr, shape_state)
+            if not np.array_equal(ob.numpy(), o2) or \
+                    not np.array_equal(ob.numpy_flat(), o1):
+                acc.violation("obs_from_numpy_roundtrip",
+                              "obs_from_numpy_roundtrip:" + label, {},
+                              W(what))
         hosts_r, aux_r = o_back.get_readable()
         mine_aux = {"Success": bool(aux[0]), "Connection Error": bool(aux[1]),
                     "Permission Error": bool(aux[2]),
@@ -238,6 +248,13 @@ def c09_case(acc, sp, kw, rng, tier, twin=False):
                 not np.array_equal(back.numpy_flat(), ten.reshape(-1)):
             acc.violation("state_from_numpy_roundtrip",
                           "state_from_numpy_roundtrip", {}, W(what))
+        fb = State.from_numpy(np.asfortranarray(ten), ten.shape,
+                              st.host_num_map)
+        if not np.array_equal(fb.numpy(), ten) or \
+                not np.array_equal(fb.numpy_flat(), ten.reshape(-1)) or \
+                not np.array_equal(fb.copy().numpy_flat(), ten.reshape(-1)):
+            acc.violation("state_from_numpy_roundtrip",
+                          "state_from_numpy_roundtrip:fortran", {}, W(what))
         rd = back.get_readable()
         for i in range(ten.shape[0]):
             mine = readable_of(lay, ten[i])
@@ -261,10 +278,16 @@ def c09_case(acc, sp, kw, rng, tier, twin=False):
         S = lay.status(A.current().tensor)
         i = pol.choose(S)
         seed = A.seed_for(i, rng.random() < 0.8, rng)
+        if k % 11 == 7:
+            from nasim.envs.action import NoOp
+            a1, a2 = NoOp(), NoOp()         # the do-nothing action
+            acc.count("noop_observations_decoded")
+        else:
+            a1, a2 = int(i), np.int64(i)
         np.random.seed(seed)
-        o1, r1, d1, tr1, info1 = A.env.step(int(i))
+        o1, r1, d1, tr1, info1 = A.env.step(a1)
         np.random.seed(seed)
-        o2, r2, d2, tr2, info2 = B.env.step(np.int64(i))
+        o2, r2, d2, tr2, info2 = B.env.step(a2)
         check_obs(o1, o2, A.env, info1, f"step {k}")
         if k % 5 == 0:
             check_state(A.env, f"step {k}")
@@ -311,6 +334,12 @@ def vec_representations(v):
     yield "int64-array", np.array(v, dtype=np.int64)
     yield "int32-array", np.array(v, dtype=np.int32)
     yield "list-of-np", [np.int64(x) for x in v]
+    if max(v) < 256:
+        yield "uint8-array", np.array(v, dtype=np.uint8)
+    yield "uint16-array", np.array(v, dtype=np.uint16)
+    yield "uint32-array", np.array(v, dtype=np.uint32)
+    yield "int8-array", np.array(v, dtype=np.int8) if max(v) < 128 \
+        else np.array(v, dtype=np.int16)
 
 
 def c10_entry_points(acc, rng):
